@@ -54,6 +54,7 @@ func staticSetup() *staticEnv {
 	}
 	e := &staticEnv{tmp: tmp, root: filepath.Join(tmp, "root"), markers: map[string]string{}, routers: map[string]*rux.Router{}}
 	os.MkdirAll(filepath.Join(e.root, "sub"), 0o755)
+	os.MkdirAll(filepath.Join(tmp, "root-internal"), 0o755) // a sibling whose name starts with the root's name
 	write := func(rel, marker string) {
 		if err := os.WriteFile(filepath.Join(tmp, rel), []byte(marker), 0o644); err != nil {
 			fatal("%v", err)
@@ -64,7 +65,7 @@ func staticSetup() *staticEnv {
 		write(rel, m)
 		e.markers[strings.TrimPrefix(rel, "root/")] = m
 	}
-	for rel, m := range map[string]string{"secret.txt": "SECRET-TXT", "secret.css": "SECRET-CSS"} {
+	for rel, m := range map[string]string{"secret.txt": "SECRET-TXT", "secret.css": "SECRET-CSS", "root-internal/key.css": "SECRET-KEY"} {
 		write(rel, m)
 		e.outside = append(e.outside, m)
 	}
